@@ -60,6 +60,12 @@ func (m *Machine) intercept(fn *ssa.Function, args []Value) (Value, bool) {
 	if isVrtMethod(fn) {
 		return m.vrtCall(fn.Name(), args[1:]), true
 	}
+	if fn.Name() == "vrtServe" && fn.Pkg != nil && fn.Pkg.Pkg.Path() == cmdPkg {
+		// harness-side server start: registers the served directory for the identity transport
+		base := fmt.Sprintf("http://vrt%d.test", len(m.env.served))
+		m.env.served[base] = m.mustStr(args[0])
+		return m.strConst(base), true
+	}
 	name := fn.String()
 	c := m.ctx
 	switch name {
